@@ -6,6 +6,7 @@ import (
 	"fmt"
 	"log/slog"
 	"os"
+	"path/filepath"
 	"reservoir/utils/assertedpath"
 )
 
@@ -45,19 +46,32 @@ func NewDefault() *Config {
 	return cfg
 }
 
-// Writes the configuration to disk.
+// Writes the configuration to disk. The new content is written to a temporary file next to the
+// config file and renamed over it, so that a failing or partial write leaves the old file intact.
 func (c *Config) persist() error {
-	f, err := os.Create(configPath.Path)
+	f, err := os.CreateTemp(filepath.Dir(configPath.Path), filepath.Base(configPath.Path)+".*.tmp")
 	if err != nil {
 		slog.Error("Failed to create config file", "path", configPath.Path, "error", err)
 		return fmt.Errorf("%w: failed to open config file for writing '%s'", ErrConfigFileOpen, configPath.Path)
 	}
-	defer f.Close()
+	tmpName := f.Name()
 
 	enc := json.NewEncoder(f)
 	enc.SetIndent("", "  ") // Pretty print the JSON output
 	if err := enc.Encode(c); err != nil {
+		f.Close()
+		os.Remove(tmpName)
 		slog.Error("Failed to encode config to JSON", "path", configPath.Path, "error", err)
+		return fmt.Errorf("%w: failed to write config to file '%s'", ErrConfigFileWrite, configPath.Path)
+	}
+	if err := f.Close(); err != nil {
+		os.Remove(tmpName)
+		slog.Error("Failed to write config file", "path", configPath.Path, "error", err)
+		return fmt.Errorf("%w: failed to write config to file '%s'", ErrConfigFileWrite, configPath.Path)
+	}
+	if err := os.Rename(tmpName, configPath.Path); err != nil {
+		os.Remove(tmpName)
+		slog.Error("Failed to replace config file", "path", configPath.Path, "error", err)
 		return fmt.Errorf("%w: failed to write config to file '%s'", ErrConfigFileWrite, configPath.Path)
 	}
 
